@@ -19,8 +19,23 @@ CHECKS = {
  'C06': cache('TLC checks in the model that every call ends with its own outcome under cancellation, failures and loop shutdown; executions '
               'of the real code with cancels/time-outs/failures at grid instants are validated against C06_ForeignOutcome_* / C06_WrongValue.'),
 }
+MODELS = {
+ 'C02': 'FileLock.tla (implementation-shaped; exhaustive MC of C02_Exclusive incl. crashes) + FileLockConform.tla (recorded executions validated action-by-action against the model with projected state)',
+ 'C12': 'FileLock.tla (no-residue invariant Quiet, Progress under fairness)',
+ 'C13': 'FileLock.tla with Crash(p) at every control point (C13_NoOrphanLock, Progress with crashes)',
+ 'C03': 'Buffer.tla (timed, contract monitor composed in; witness W_D10) + BufferConform.tla',
+ 'C07': 'Buffer.tla (timed, wait(cancel) T/F) + BufferConform.tla',
+ 'C08': 'Buffer.tla (timed: C08_Quiet / C08_Together decided for every arrival pattern within the bounds) + BufferConform.tla',
+ 'C04': 'Batcher.tla (timed, contract monitor composed in) + BatcherConform.tla',
+ 'C09': 'Batcher.tla with CancelCaller (witness W_D4 = the pre-repair behaviour) + BatcherConform.tla',
+ 'C10': 'Batcher.tla (sizes, concurrency, FIFO, share, deadline as invariants) + BatcherConform.tla',
+ 'C11': 'Batcher.tla (retention 0 and 3 ticks) + BatcherConform.tla',
+ 'C16': 'IterBridge.tla (failure at every position; witnesses = seeded changes)',
+ 'C17': 'CrossLoop.tla (double-checked lock creation, temporary vs permanent runners; witness W_D7 = known finding)',
+}
+
 def comp(spec, text, technique=None):
-    return {'engine': 'tlc+runtime', 'design_ref': 'DESIGN.md §5', 'text': text, 'note': TRUST,
+    return {'engine': 'tlc+runtime', 'design_ref': 'DESIGN.md §12', 'text': text, 'note': TRUST,
             'technique': technique or ('executions of the real code in virtual time under the deterministic runtime, '
                           'validated by TLC against the TLA+ contract monitor ' + spec)}
 
@@ -77,6 +92,10 @@ CHECKS['C15'] = comp('BatcherContract / BufferContract / KeysContract instantiat
     'decorator-with-options form, the direct form and the class for every option (one at a time and jointly); TLC validates each trace against the component contract instantiated with the values '
     'given (C15_OptionEffective_*) and checks the traces of the forms equal event for event (C15_FormsEquivalent); one decorated batcher is driven from 1..3 loops successively and concurrently and '
     'each per-loop projection must satisfy BatcherContract on its own (C15_PerLoopIndependent_*).')
+for _p, _m in MODELS.items():
+    if _p in CHECKS:
+        CHECKS[_p]['text'] += ' Model level: ' + _m + '.'
+        CHECKS[_p]['technique'] = 'TLA+ model checked exhaustively by TLC (' + _m.split(' (')[0] + '); ' + CHECKS[_p]['technique']
 PENDING_REASON = 'check not built yet in this session (planned: see DESIGN.md §5); not a claim that the technique cannot apply'
 PENDING = {('C%02d' % i): PENDING_REASON for i in range(1, 21)}
 ENGINES = [
